@@ -246,10 +246,50 @@ def make_target() -> Any:
     return CTarget()
 
 
-def generate(outputs: Any, **kw: Any) -> BoundCProgram:
-    """deduplicate + generate_loopy with the C target."""
+def quasi_affine(expr: Any) -> bool:
+    """What pytato.scalar_expr.is_quasi_affine decides where loopy's affine
+    conversion works: sums, products with at most one non-constant factor,
+    floor-division / remainder by constants, over variables and integers."""
+    import pymbolic.primitives as p
+
+    def const(e: Any) -> bool:
+        return isinstance(e, (int, np.integer))
+
+    def ok(e: Any) -> bool:
+        if const(e) or isinstance(e, p.Variable):
+            return True
+        if isinstance(e, p.Sum):
+            return all(ok(c) for c in e.children)
+        if isinstance(e, p.Product):
+            non = [c for c in e.children if not const(c)]
+            return len(non) <= 1 and all(ok(c) for c in non)
+        if isinstance(e, (p.FloorDiv, p.Remainder)):
+            return ok(e.numerator) and const(e.denominator) and int(e.denominator) > 0
+        return False
+    return ok(expr)
+
+
+def generate(outputs: Any, qa_shim: bool = False, **kw: Any) -> BoundCProgram:
+    """deduplicate + generate_loopy with the C target.
+
+    qa_shim: in this sandbox loopy's affine conversion fails on EVERY
+    expression (loopy / islpy version mismatch: TypeError inside
+    pwaff_from_expr, reported as 'not affine'), so pytato's is_quasi_affine is
+    constantly False and every reduction is force-stored with bound
+    temporaries -- the path with INLINED reductions, which is what users with
+    a working loopy get, is never taken.  With qa_shim the decision is made by
+    quasi_affine() above for the duration of this call, so that both paths of
+    CodeGenMapper.map_index_lambda are exercised."""
     import pytato as pt
     if not isinstance(outputs, pt.DictOfNamedArrays):
         outputs = pt.make_dict_of_named_arrays(dict(outputs))
     outputs = pt.transform.deduplicate(outputs)
-    return pt.generate_loopy(outputs, target=make_target(), **kw)
+    if not qa_shim:
+        return pt.generate_loopy(outputs, target=make_target(), **kw)
+    import pytato.target.loopy.codegen as cg
+    orig = cg.is_quasi_affine
+    cg.is_quasi_affine = quasi_affine
+    try:
+        return pt.generate_loopy(outputs, target=make_target(), **kw)
+    finally:
+        cg.is_quasi_affine = orig
